@@ -46,6 +46,10 @@ def block_options(i, variant, incdir):
         # non-matching block must not switch off the beginning of the next one
         return ['Include %s/g*.conf' % incdir, 'Port 240%d' % v, 'Include %s/m1.conf %s/m2.conf' % (incdir, incdir),
                 'SendEnv B%d' % v]
+    if variant in ('none-first', 'none-later'):
+        # an explicit "none" is a value like any other: obtained first it stands, obtained later it is ignored
+        is_none = (i == 0) == (variant == 'none-first')
+        return ['ProxyJump %s' % ('none' if is_none else 'jump%d' % v), 'User u%d' % v, 'Port 220%d' % v, 'SendEnv N%d' % v]
     raise ValueError(variant)
 
 
@@ -409,7 +413,7 @@ def main(tier, seed):
         hs += list(itertools.product(HEADERS, repeat=n))
     if tier == 'thorough':
         hs = [h for h in hs if len(h) < 3 or len(set(h)) == 3]
-    progs = [(h, v) for h in hs for v in ('plain', 'tokens', 'include', 'include-multi', 'list')]
+    progs = [(h, v) for h in hs for v in ('plain', 'tokens', 'include', 'include-multi', 'list', 'none-first', 'none-later')]
     acc = core.pmap(client_worker, core.rotate([progs[i::64] for i in range(64)], seed))
     n_client = acc.evaluations
     acc.merge(core.pmap(server_worker, [0]))
@@ -417,7 +421,7 @@ def main(tier, seed):
     shutil.rmtree(SCRATCH, ignore_errors=True)
     rule = ('client: every sequence of 1..%d conditional blocks over %d headers (Host patterns with wildcards and '
             'negation in either position, Match host/originalhost/user/localuser/all with negation and lists), every '
-            'block assigning each option under test a distinct value, x 5 variants (plain; "=" and quoted spellings, '
+            'block assigning each option under test a distinct value, x 7 variants (an explicit none obtained first or later; plain; "=" and quoted spellings, '
             'Hostname with %%h, IdentityFile with %%h %%r %%p %%n %%%% %%d %%u, multiple SendEnv words, SetEnv; Include '
             'of existing, nested-Host and non-matching glob files; one Include naming several files or a glob matching '
             'several, some ending inside a non-matching block; the blocks as separate files given as a list) x 12 targets (3 hosts x user x port) vs ssh -G; '
